@@ -4,7 +4,7 @@
    receive the same argument values.
 
      pre :: spare :: enc_zs es ++ tpre :: tspare :: enc_zs et ++ enc_zs m0 ++ enc_zs m1
-         ++ enc_zs L ++ enc_zs C ++ [fn;x;y]*
+         ++ enc_zs L ++ enc_zs C ++ a :: [fn;x;y]*
 
        object 0 = pre sentinels ++ es ++ spare sentinels,  s = object0[pre : pre+n : pre+n+spare]
        object 1 likewise for t;  object 2 = map0, object 3 = map1 (flat k v k v ...);
@@ -13,8 +13,13 @@
        object 5 = 99 :: C ++ [99]: the caller's []map `coll` likewise, codes 0 = map0, 1 = map1, 99 = a
                   sentinel map (object 10);
        objects 6, 7 = the maps of maps {0: map0, 1: map1} and {2: map1} (values = codes);
-       object 8 = [99; 0; 1; 99]: the caller's []map[int]map[int]int `coll2` = object8[1:3:3].
-       Every call receives the SAME s, t, map0, map1, lists, coll, coll2.
+       object 8 = [99; 0; 1; 99]: the caller's []map[int]map[int]int `coll2` = object8[1:3:3];
+       objects 12-14 = the caller's nested []any `anys` number a (0: well typed; 1-9: a value of another
+                  type at depth 1, 2, 3 x first / middle / last position, see [any_lists]): cells are codes,
+                  0 = s, 1 = t, 5 = the int 5, 9 = a string, 1000+100*id+len = the []any in object id.
+       Every call receives the SAME s, t, map0, map1, lists, coll, coll2, anys.
+       A call that panics keeps what it has written until then (status 2, no result); all objects are
+       recorded after EVERY call, whatever its outcome.
        The call codes are the table [call_of] below (mirrored in harness/c16.go).
 
    observation, per call k:  status (0 ok | 2 panic) ; enc_zss R_k (when ok: what the
@@ -68,6 +73,33 @@ Definition tbl_of (s t : slice) (c : Z) : slice :=
 Definition mtbl_of (c : Z) : nat := if c =? 0 then id_m0 else if c =? 1 then id_m1 else 10%nat.
 Definition otbl_of (c : Z) : nat := if c =? 0 then 6%nat else if c =? 1 then 7%nat else 11%nat.
 
+(* the cells of a []any *)
+Definition sub_code (id len : nat) : Z := 1000 + 100 * Z.of_nat id + Z.of_nat len.
+Definition atbl_of (s t : slice) (c : Z) : anyv :=
+  if c =? 0 then ASlice s else if c =? 1 then ASlice t else if c =? 5 then AItem 5
+  else if 1000 <=? c then let len := Z.to_nat (Z.modulo (c - 1000) 100) in
+                          AList (mkSlice (Z.to_nat (Z.div (c - 1000) 100)) 0 len len)
+  else ABad.                                   (* 9: a string, 8: nil, 99: the sentinel *)
+Definition id_A : nat := 12.
+(* the caller's nested []any number a: the cells of the root list and of the two possible sub-lists *)
+Definition any_lists (a : Z) : list Z * list Z * list Z :=
+  let sub3 := sub_code 13 3 in
+  match a with
+  | 0 => ([0; sub_code 13 2; 1], [1; 5], [])
+  | 1 => ([9; 0; 1], [], [])
+  | 2 => ([0; 9; 1], [], [])
+  | 3 => ([0; 1; 9], [], [])
+  | 4 => ([0; sub3; 1], [9; 1; 5], [])
+  | 5 => ([0; sub3; 1], [1; 9; 5], [])
+  | 6 => ([0; sub3; 1], [1; 5; 9], [])
+  | 7 => ([0; sub3], [1; sub_code 14 3; 5], [9; 5; 0])
+  | 8 => ([0; sub3], [1; sub_code 14 3; 5], [5; 9; 0])
+  | _ => ([0; sub3], [1; sub_code 14 3; 5], [5; 0; 9])
+  end.
+Definition any_root (a : Z) : slice :=
+  let n := length (fst (fst (any_lists a))) in mkSlice id_A 1 n (n + 1).
+Definition flat_fuel : nat := 10.
+
 (* ---------- the call table ---------- *)
 
 (* a call written with explicit arguments `Merge(s, t)`: Go builds the variadic slice afresh *)
@@ -82,14 +114,13 @@ Definition sub_lists (nL : nat) (x y : Z) (k : slice -> M (list rref)) : M (list
   if (x <? 0) || (y <? 0) then fail
   else bind (reslice (mkSlice id_L 1 nL (nL + 1)) (Z.to_nat x) (Z.to_nat y)) k.
 
-Definition call_of (nL nC : nat) (fn x y : Z) (s t : slice) : M (list rref) :=
+Definition call_of (nL nC : nat) (a : Z) (fn x y : Z) (s t : slice) : M (list rref) :=
   let R := run_call slack0 in
   let tbl := tbl_of s t in
   let CS := mkSlice id_C 1 nC (nC + 1) in
   let C2S := mkSlice id_C2 1 2 2 in
-  (* the caller's []any{s, []any{t, 5}, t}: a Gallina tree in the model (its cells cannot be written there);
-     the harness observes them ([print_A]) *)
-  let any_arg := NList [NSlice s; NList [NSlice t; NItem 5]; NSlice t] in
+  let atbl := atbl_of s t in
+  let any_arg := AList (any_root a) in            (* the caller's nested []any *)
   let p := vpred x y in
   let f := vfun x in
   match fn with
@@ -119,8 +150,9 @@ Definition call_of (nL nC : nat) (fn x y : Z) (s t : slice) : M (list rref) :=
   | 23 => R (HShuffle [] s)
   | 24 => R (HDuplicate s)
   | 25 => R (HDuplicateWithIndex s)
-  | 26 => R (HFlatten (NList [NSlice s; NList [NSlice t; NItem 5]]))
-  | 27 => R (HUnion (NList [NSlice s; NSlice t]))
+  | 26 => bind (alloc [1; 5]) (fun i1 =>                                      (* Flatten([]any{s, []any{t, 5}}) *)
+          bind (alloc [0; sub_code i1 2]) (fun i2 => R (HFlatten flat_fuel atbl (AList (mkSlice i2 0 2 2)))))
+  | 27 => bind (alloc [0; 1]) (fun i => R (HUnion flat_fuel atbl (AList (mkSlice i 0 2 2))))
   | 28 => with_args [0; 1] (fun ps => R (HIntersectionBy f tbl ps))
   | 29 => R (HDifferenceBy f s t)
   | 30 => R (HGroupBy f s)
@@ -137,7 +169,7 @@ Definition call_of (nL nC : nat) (fn x y : Z) (s t : slice) : M (list rref) :=
   | 41 => R (HReject p t)
   | 42 => with_args [1; 0] (fun ps => R (HIntersection tbl ps))
   | 43 => with_args [0; 0] (fun ps => R (HZip tbl ps))
-  | 44 => R (HFlatten (NList [NSlice s; NBad]))
+  | 44 => bind (alloc [0; 9]) (fun i => R (HFlatten flat_fuel atbl (AList (mkSlice i 0 2 2))))
   | 45 => with_args [] (fun ps => R (HMerge s tbl ps))
   | 46 => with_args [0; 0] (fun ps => R (HUnzip tbl ps))
   | 47 => with_args (repeat 1 (Z.to_nat x)) (fun ps => R (HMerge s tbl ps))
@@ -168,8 +200,8 @@ Definition call_of (nL nC : nat) (fn x y : Z) (s t : slice) : M (list rref) :=
   | 72 => sub_lists nL x y (fun ps => R (HIntersectionBy (vfun 4) tbl ps))
   | 73 => sub_lists nL x y (fun ps => R (HZip tbl ps))
   | 74 => sub_lists nL x y (fun ps => R (HUnzip tbl ps))
-  | 75 => R (HFlatten any_arg)                                              (* Flatten[int](anys) *)
-  | 76 => R (HUnion any_arg)
+  | 75 => R (HFlatten flat_fuel atbl any_arg)                               (* Flatten[int](anys) *)
+  | 76 => R (HUnion flat_fuel atbl any_arg)
   | 101 => R (HKeys id_m0)
   | 102 => R (HValues id_m0)
   | 103 => R (HPick id_m0 s)
@@ -294,7 +326,7 @@ Definition enc_rec (r : orec) : list Z :=
 (* ---------- decoded programs ---------- *)
 
 Record prog := mkP { p_pre : nat; p_spare : nat; p_es : list Z; p_tpre : nat; p_tspare : nat; p_et : list Z;
-                     p_m0 : amap; p_m1 : amap; p_L : list Z; p_C : list Z; p_calls : list (list Z) }.
+                     p_m0 : amap; p_m1 : amap; p_L : list Z; p_C : list Z; p_A : Z; p_calls : list (list Z) }.
 
 Definition calls_ok (cs : list (list Z)) : bool :=
   forallb (fun c => Nat.eqb (length c) 3) cs && (Nat.leb (length cs) 4).
@@ -319,11 +351,12 @@ Definition decode (w : list Z) : option prog :=
                       match rd_zs w5 with
                       | Some (lL, w6) =>
                           match rd_zs w6 with
-                          | Some (lC, w7) =>
+                          | Some (lC, a :: w7) =>
                               let cs := chunks 3 w7 in
                               if calls_ok cs && forallb (fun c => (0 <=? c) && (c <? sent_code)) lL
-                                 && forallb (fun c => (0 <=? c) && (c <=? 1)) lC
-                              then Some (mkP pre spare es tpre tspare et (canon_map l0) (canon_map l1) lL lC cs) else None
+                                 && forallb (fun c => (0 <=? c) && (c <=? 1)) lC && (0 <=? a) && (a <=? 9)
+                              then Some (mkP pre spare es tpre tspare et (canon_map l0) (canon_map l1) lL lC a cs) else None
+                          | Some (_, []) => None
                           | None => None
                           end
                       | None => None
@@ -349,23 +382,34 @@ Definition print_C2 (m : mem) : list Z :=
                      Z.of_nat (length o) :: flat_map (fun kc => fst kc :: show_map m (mtbl_of (snd kc))) o)
            (arr_of m id_C2).
 
-(* the cells of the caller's []any (with a sentinel cell before and behind): 1 len elems = a []int, 2 v = an int,
-   3 n cells = a []any, 9 = the sentinel *)
-Definition print_A (s t : slice) (m : mem) : list Z :=
-  let sl (x : slice) := 1 :: enc_zs (read_all m x) in
-  [9] ++ sl s ++ [3; 2] ++ sl t ++ [2; 5] ++ sl t ++ [9].
+(* what the caller's []any shows, cell by cell and recursively (the root with its sentinel cells):
+   1 len elems = a []int, 2 v = an int, 3 n cells = a []any, 8 = nil, 9 = a value of another type *)
+Fixpoint print_cells (fuel : nat) (s t : slice) (m : mem) (codes : list Z) : list Z :=
+  flat_map (fun c =>
+              match atbl_of s t c with
+              | ASlice x => 1 :: enc_zs (read_all m x)
+              | AItem v => [2; v]
+              | AList l => match fuel with
+                           | O => [7]
+                           | S f => 3 :: Z.of_nat (s_len l) :: print_cells f s t m (read_all m l)
+                           end
+              | ABad => if c =? 8 then [8] else [9]
+              end) codes.
+Definition print_A (s t : slice) (m : mem) : list Z := print_cells 4 s t m (arr_of m id_A).
 
 Definition backings (s t : slice) (m : mem) : list (list Z) :=
   [arr_of m 0%nat; arr_of m 1%nat; kvflat (sort_kv (map_of m id_m0)); kvflat (sort_kv (map_of m id_m1));
    print_L s t m; print_C m; print_C2 m; print_A s t m].
 
 (* the memory a program starts in, given the contents of the four primary objects *)
-Definition world (b0 b1 m0 m1 : list Z) (L C : list Z) : mem :=
+Definition world (b0 b1 m0 m1 : list Z) (L C : list Z) (a : Z) : mem :=
+  let '(root, sub1, sub2) := any_lists a in
   [b0; b1; m0; m1; sent_code :: L ++ [sent_code]; sent_code :: C ++ [sent_code];
-   [0; 0; 1; 1]; [2; 1]; [sent_code; 0; 1; sent_code]; [-4242]; [-1; -1]; []].
+   [0; 0; 1; 1]; [2; 1]; [sent_code; 0; 1; sent_code]; [-4242]; [-1; -1]; [];
+   sent_code :: root ++ [sent_code]; sub1; sub2].
 
 (* run the calls; [oracles] = the observed (status, result) of each call, used only for [value_free] results *)
-Fixpoint run_calls (nL nC : nat) (s t : slice) (calls : list (list Z)) (oracles : list (Z * list (list Z)))
+Fixpoint run_calls (nL nC : nat) (a : Z) (s t : slice) (calls : list (list Z)) (oracles : list (Z * list (list Z)))
                    (m : mem) (prev : list (Z * list rref)) : list orec :=
   match calls with
   | [] => []
@@ -373,13 +417,13 @@ Fixpoint run_calls (nL nC : nat) (s t : slice) (calls : list (list Z)) (oracles 
       let fn := zget c 0 in
       let oracle := hd (0, []) oracles in
       let '(st, R, m') :=
-          match call_of nL nC fn (zget c 1) (zget c 2) s t m with
-          | Some (R, m') => (0, (if value_free fn then map RV (snd oracle) else canon_refs fn R), m')
-          | None => (2, [], m)
+          match call_of nL nC a fn (zget c 1) (zget c 2) s t m with
+          | (Some R, m') => (0, (if value_free fn then map RV (snd oracle) else canon_refs fn R), m')
+          | (None, m') => (2, [], m')          (* a panic: what was written before it stays written *)
           end in
       mkRec st (read_result fn m' R) (backings s t m')
             (map (fun fr => read_result (fst fr) m' (snd fr)) prev)
-      :: run_calls nL nC s t calls' (tl oracles) m' (prev ++ [(fn, R)])
+      :: run_calls nL nC a s t calls' (tl oracles) m' (prev ++ [(fn, R)])
   end.
 
 Definition slice_s (p : prog) : slice := mkSlice 0 (p_pre p) (length (p_es p)) (length (p_es p) + p_spare p).
@@ -387,8 +431,8 @@ Definition slice_t (p : prog) : slice := mkSlice 1 (p_tpre p) (length (p_et p)) 
 
 Definition recs (p : prog) (oracles : list (Z * list (list Z))) : list orec :=
   let m0 : mem := world (backing 0 (p_pre p) (p_es p) (p_spare p)) (backing 1 (p_tpre p) (p_et p) (p_tspare p))
-                        (kvflat (p_m0 p)) (kvflat (p_m1 p)) (p_L p) (p_C p) in
-  run_calls (length (p_L p)) (length (p_C p)) (slice_s p) (slice_t p) (p_calls p) oracles m0 [].
+                        (kvflat (p_m0 p)) (kvflat (p_m1 p)) (p_L p) (p_C p) (p_A p) in
+  run_calls (length (p_L p)) (length (p_C p)) (p_A p) (slice_s p) (slice_t p) (p_calls p) oracles m0 [].
 
 (* ---------- run / agree ---------- *)
 
@@ -478,7 +522,7 @@ Definition inplace_ok (p : prog) (k : nat) (old new : list Z) : bool :=
 Definition outer_ok (p : prog) (bs : list (list Z)) : bool :=
   match bs with
   | [b0; b1; m0; m1; pL; pC; pC2; pA] =>
-      let w := world b0 b1 m0 m1 (p_L p) (p_C p) in
+      let w := world b0 b1 m0 m1 (p_L p) (p_C p) (p_A p) in
       zlist_eqb pL (print_L (slice_s p) (slice_t p) w) && zlist_eqb pC (print_C w) && zlist_eqb pC2 (print_C2 w)
       && zlist_eqb pA (print_A (slice_s p) (slice_t p) w)
   | _ => false
